@@ -165,23 +165,35 @@ func (p *Prog) funcsByName(names ...string) []*ssa.Function {
 	return out
 }
 
-// decodeClosure 𝒟.
-func (p *Prog) decodeClosure() []*ssa.Function {
+func (p *Prog) decodeRoots() []*ssa.Function {
 	roots := p.codecMethodFuncs("Read")
-	roots = append(roots, p.funcsByName("plenc.Plenc.Unmarshal", "plenc.Unmarshal", "plenccodec.Descriptor.Read",
+	return append(roots, p.funcsByName("plenc.Plenc.Unmarshal", "plenc.Unmarshal", "plenccodec.Descriptor.Read",
 		"plenccore.ReadVarUint", "plenccore.ReadVarInt", "plenccore.ReadTag", "plenccore.Skip")...)
-	return p.closure(roots, isBuildFunc)
 }
 
-// encodeClosure ℰ.
-func (p *Prog) encodeClosure() []*ssa.Function {
+// decodeClosure 𝒟.
+func (p *Prog) decodeClosure() []*ssa.Function {
+	if p.decodeC == nil {
+		p.decodeC = p.closure(p.decodeRoots(), isBuildFunc)
+	}
+	return p.decodeC
+}
+
+func (p *Prog) encodeRoots() []*ssa.Function {
 	var roots []*ssa.Function
 	for _, m := range []string{"Omit", "Size", "Append"} {
 		roots = append(roots, p.codecMethodFuncs(m)...)
 	}
-	roots = append(roots, p.funcsByName("plenc.Plenc.Marshal", "plenc.Marshal",
+	return append(roots, p.funcsByName("plenc.Plenc.Marshal", "plenc.Marshal",
 		"plenccore.AppendVarUint", "plenccore.AppendVarInt", "plenccore.AppendTag", "plenccore.SizeVarUint", "plenccore.SizeVarInt", "plenccore.SizeTag")...)
-	return p.closure(roots, isBuildFunc)
+}
+
+// encodeClosure ℰ.
+func (p *Prog) encodeClosure() []*ssa.Function {
+	if p.encodeC == nil {
+		p.encodeC = p.closure(p.encodeRoots(), isBuildFunc)
+	}
+	return p.encodeC
 }
 
 // buildClosure ℬ.
